@@ -2,6 +2,7 @@ import ObiVerif.Model.Grep
 import ObiVerif.Model.Annotate
 import ObiVerif.Lemmas.Grep
 import ObiVerif.Lemmas.Annotate
+import ObiVerif.Lemmas.Distribute
 import ObiVerif.Props.C03
 /-!
 # C16 — obigrep, obiannotate, obidistribute act on each record as their options say
@@ -269,11 +270,140 @@ theorem distribute_partition (key1 key2 na : String) (tbl : Nat → Grep.Rec)
 example : dualClass "sample" "" "NA" exR5 = ("NA", "") ∧
     dualClass "count" "dir" "NA" exR5 = ("5", "NA") := by decide
 
+/-! ### the other classifiers of obidistribute, and the files -/
+
+open ObiVerif.Distribute in
+/-- `CLISequenceClassifier`: `--classifier` has priority over `--batches`, which has priority over
+`--hash`; without any of them the program stops -/
+theorem classifier_choice (o : DistOpts) :
+    (o.classifierTag ≠ "" → cliClassifier o = some (.dual o.classifierTag o.directoryTag o.naValue)) ∧
+    (o.classifierTag = "" → o.batchCount > 0 → cliClassifier o = some (.rotate o.batchCount.toNat)) ∧
+    (o.classifierTag = "" → o.batchCount ≤ 0 → o.hashSize > 0 → cliClassifier o = some (.hash o.hashSize.toNat)) ∧
+    (o.classifierTag = "" → o.batchCount ≤ 0 → o.hashSize ≤ 0 → cliClassifier o = none) := by
+  refine ⟨?_, ?_, ?_, ?_⟩
+  · intro h; simp [cliClassifier, h]
+  · intro h1 h2; simp [cliClassifier, h1, h2]
+  · intro h1 h2 h3; simp [cliClassifier, h1, Int.not_lt.mpr h2, h3]
+  · intro h1 h2 h3; simp [cliClassifier, h1, Int.not_lt.mpr h2, Int.not_lt.mpr h3]
+
+open ObiVerif.Distribute in
+/-- **the class is chosen from the record alone** (`--classifier`, `--hash`: whatever the rank; for
+`--hash` from its sequence alone) **or from the rank alone** (`--batches`: round-robin) -/
+theorem class_from_record_or_rank (c : Classifier) (i j : Nat) (r r' : Rec) :
+    (∀ k1 k2 na, c = .dual k1 k2 na → classOf c i r = classOf c j r) ∧
+    (∀ n, c = .hash n → classOf c i r = classOf c j r ∧ (r.seq = r'.seq → classOf c i r = classOf c j r')) ∧
+    (∀ n, c = .rotate n → classOf c i r = classOf c i r' ∧ classOf c i r = (toString (i % n + 1), "")) := by
+  refine ⟨?_, ?_, ?_⟩
+  · intro k1 k2 na h; subst h; rfl
+  · intro n h; subst h
+    exact ⟨rfl, fun e => by simp [classOf, hashCode_seq n r r' e]⟩
+  · intro n h; subst h; exact ⟨rfl, rfl⟩
+
+open ObiVerif.Iter ObiVerif.Props.C03 ObiVerif.Distribute in
+/-- `obidistribute --hash n`: the class of a record is `crc32(sequence) % n < n` (at most `n` files);
+the stream of class `key` holds exactly the records of that class, in input order, each as often as
+in the input, and no other stream holds them -/
+theorem distribute_hash (n : Nat) (hn : 0 < n) (tbl : Nat → Grep.Rec)
+    (size : Nat) (hsize : 0 < size) (v : Nat → List Nat) (m : Nat) (ks : List Nat)
+    (hp : ks.Perm (List.range m)) (key : Nat) :
+    let cls := fun i => hashCode n (tbl i)
+    let out := distributeKey cls size key (ks.map fun k => (k, v k))
+    Numbered out ∧ flatten out = (inFlat v m).filter (fun i => hashCode n (tbl i) == key) ∧
+    (∀ i, (flatten out).count i = if hashCode n (tbl i) = key then (inFlat v m).count i else 0) ∧
+    (∀ i, hashCode n (tbl i) < n) := by
+  intro cls out
+  obtain ⟨h1, h2, _⟩ := distribute_spec cls size hsize v m ks hp key
+  exact ⟨h1, h2, fun i => distribute_routing cls size hsize v m ks hp key i, fun i => hashCode_lt n hn _⟩
+
+open ObiVerif.Iter ObiVerif.Props.C03 ObiVerif.Distribute in
+/-- `obidistribute --batches n`: the stateful `RotateClassifier`, called once per record on the sorted
+stream by the single goroutine of `Distribute`, gives the record of rank `i` the class `i % n + 1`
+(round-robin); with the records named by their rank (`hrank`), the stream of class `key` holds exactly
+the ranks `≡ key - 1 (mod n)`, in order, once each, and the classes are `1..n` -/
+theorem distribute_rotate (n : Nat) (hn : 0 < n)
+    (size : Nat) (hsize : 0 < size) (v : Nat → List Nat) (m : Nat) (ks : List Nat)
+    (hp : ks.Perm (List.range m)) (N : Nat) (hrank : inFlat v m = List.range N) (key : Nat) :
+    rotateCodes n (inFlat v m) = (inFlat v m).map (fun i => i % n + 1) ∧
+    let out := distributeKey (fun i => i % n + 1) size key (ks.map fun k => (k, v k))
+    Numbered out ∧ flatten out = (List.range N).filter (fun i => i % n + 1 == key) ∧
+    (∀ i, i < N → (flatten out).count i = if i % n + 1 = key then 1 else 0) ∧
+    (∀ i, 1 ≤ i % n + 1 ∧ i % n + 1 ≤ n) := by
+  refine ⟨by rw [hrank, rotateCodes_range], ?_⟩
+  intro out
+  obtain ⟨h1, h2, _⟩ := distribute_spec (fun i => i % n + 1) size hsize v m ks hp key
+  refine ⟨h1, by rw [← hrank]; exact h2, ?_, fun i => rotate_code_bounds n i hn⟩
+  intro i hi
+  rw [distribute_routing (fun i => i % n + 1) size hsize v m ks hp key i, hrank]
+  have : (List.range N).count i = 1 := by rw [List.count_range]; simp [hi]
+  rw [this]
+
+/-- test: 7 records in 3 batches -/
+example : Distribute.rotateCodes 3 [10, 11, 12, 13, 14, 15, 16] = [1, 2, 3, 1, 2, 3, 1] := by decide
+
+open ObiVerif.Distribute in
+/-- **the file is determined by the class, and only by it** (`WriterDispatcher`): two classes get the
+same file name iff they are equal, for plain names (no `/` in the pattern, keys and directories)
+and when the output is not compressed or the pattern suffix has 3 characters or more.  (Without
+the last condition `fileNameL_gz_collision` is a counterexample: `-Z`, pattern `a%s`, classes `x`
+and `x.gz`.) -/
+theorem file_determined_by_class (o : DistOpts) (hz : o.compressed = false ∨ 3 ≤ o.patSuf.toList.length)
+    (kd1 kd2 : String × String)
+    (hp : '/' ∉ o.patPre.toList) (hs : '/' ∉ o.patSuf.toList)
+    (h1 : '/' ∉ kd1.1.toList ∧ '/' ∉ kd1.2.toList) (h2 : '/' ∉ kd2.1.toList ∧ '/' ∉ kd2.2.toList) :
+    fileName o kd1 = fileName o kd2 ↔ kd1 = kd2 := by
+  constructor
+  · intro h
+    have h' := congrArg String.toList h
+    simp only [fileName, String.toList_ofList] at h'
+    obtain ⟨e1, e2⟩ := fileNameL_injective _ _ _ hz _ _ _ _ hp hs h1.1 h2.1 h1.2 h2.2 h'
+    exact Prod.ext (String.toList_inj.mp e1) (String.toList_inj.mp e2)
+  · intro h; rw [h]
+
+open ObiVerif.Distribute in
+/-- **every record is written to exactly one file, the one of its class, in input order**: the file
+`g` holds the records (rank `i`, content `r`) with `fileName o (classOf c i r) = g`, in input order;
+a record is in the list of `g` iff `g` is its file -/
+theorem files_partition (o : DistOpts) (c : Classifier) (recs : List Rec) :
+    (∀ g, ((distributeFiles o c recs).lookup g).getD [] =
+      ((recs.zipIdx).filter fun ri => fileName o (classOf c ri.2 ri.1) == g).map (·.1.id)) ∧
+    (∀ ri ∈ recs.zipIdx, ∀ g,
+      ri ∈ ((recs.zipIdx).filter fun x => fileName o (classOf c x.2 x.1) == g) ↔ g = fileName o (classOf c ri.2 ri.1)) := by
+  refine ⟨distributeFiles_content o c recs, ?_⟩
+  intro ri hri g
+  simp only [List.mem_filter, hri, true_and, beq_iff_eq]
+  exact eq_comm
+
+/-- test: `-p out_%s.fasta -c sample -d k --na-value none` and `-n 2 -Z` -/
+example :
+    Distribute.distributeFiles { patPre := "out_", patSuf := ".fasta", classifierTag := "sample", directoryTag := "k", naValue := "none" }
+      (.dual "sample" "k" "none")
+      [⟨"a", [97], [("sample", .str "A"), ("k", .int 2)]⟩, ⟨"b", [97], []⟩, ⟨"c", [97], [("k", .int 1)]⟩,
+       ⟨"e", [97], [("sample", .str "A"), ("k", .int 2)]⟩]
+      = [("2/out_A.fasta", ["a", "e"]), ("out_none.fasta", ["b"]), ("1/out_none.fasta", ["c"])] ∧
+    Distribute.distributeFiles { patPre := "b", patSuf := "", batchCount := 2, compressed := true } (.rotate 2)
+      [⟨"a", [97], []⟩, ⟨"b", [97], []⟩, ⟨"c", [97], []⟩]
+      = [("b1.gz", ["a", "c"]), ("b2.gz", ["b"])] := by decide
+
+/-- `Value(Code(r))` of the annotation classifiers is the class of `r`: the codes are handed out in
+order of first occurrence and `decode[code]` gives the class value back, whatever comes later; two
+records get the same code iff they have the same class -/
+theorem classifier_value_of_code (vs : List (String × String)) :
+    (∀ i (h : i < vs.length) (h' : i < (Distribute.encodeAll [] vs).2.length),
+      (Distribute.encodeAll [] vs).1[(Distribute.encodeAll [] vs).2[i]]? = some vs[i]) ∧
+    (∀ i j (hi : i < vs.length) (hj : j < vs.length)
+      (hi' : i < (Distribute.encodeAll [] vs).2.length) (hj' : j < (Distribute.encodeAll [] vs).2.length),
+      (Distribute.encodeAll [] vs).2[i] = (Distribute.encodeAll [] vs).2[j] ↔ vs[i] = vs[j]) :=
+  ⟨(Distribute.encodeAll_spec vs [] List.nodup_nil).2.2.2, Distribute.encodeAll_injective vs⟩
+
+example : Distribute.encodeAll [] [("A", ""), ("NA", ""), ("A", ""), ("B", "")] =
+    ([("A", ""), ("NA", ""), ("B", "")], [0, 1, 0, 2]) := by decide
+
 /-! ## 5. obiannotate applies every requested edit and changes nothing else -/
 
 /-- the worker built by `CLIAnnotationWorker` is the chain of the requested edits: one worker per
 option that is given, none for an option that is not, in the fixed order clear, set-identifier,
-delete-tag, keep, rename-tag, length, set-tag, cut -/
+delete-tag, keep, rename-tag, with-taxon-at-rank, taxonomic-path, taxonomic-rank, scientific-name,
+length, set-tag, aho-corasick, cut, pattern -/
 theorem annotate_exact (O : Annotate.Oracles) (o : AnnotOpts) (r : Rec) :
     annotate O o r = applyAll (requestedEdits O o) r ∧
     requestedEdits O o =
@@ -282,9 +412,15 @@ theorem annotate_exact (O : Annotate.Oracles) (o : AnnotOpts) (r : Rec) :
       (if o.toBeDeleted ≠ [] then [deleteAttributes o.toBeDeleted] else []) ++
       (if o.keepOnly ≠ [] then [keepAttributes o.keepOnly] else []) ++
       (if o.toBeRenamed ≠ [] then [renameAttributes o.toBeRenamed] else []) ++
+      (if o.taxonAtRank ≠ [] then [addTaxonAtRank O o.taxonAtRank] else []) ++
+      (if o.taxonomicPath then [setFromTaxonomy "taxonomic_path" O.taxPath] else []) ++
+      (if o.withRank then [setFromTaxonomy "taxonomic_rank" O.taxRank] else []) ++
+      (if o.withScientificName then [setFromTaxonomy "scienctific_name" O.sciName] else []) ++
       (if o.setSeqLength then [addSeqLength] else []) ++
       (if o.evalAttribute ≠ [] then [evalAttributes O o.evalAttribute] else []) ++
-      (if o.cut.1 ≠ 0 ∧ o.cut.2 ≠ 0 then [cutSequence o.cut.1 o.cut.2] else []) :=
+      (if o.ahoCorasick then [ahoCorasick O] else []) ++
+      (if o.cut.1 ≠ 0 ∧ o.cut.2 ≠ 0 then [cutSequence o.cut.1 o.cut.2] else []) ++
+      (if o.pattern ≠ "" then [matchPattern O o.pattern o.patternName o.patternError o.patternIndel] else []) :=
   ⟨rfl, rfl⟩
 
 /-- `ChainWorkers` is sequential composition: the edits of `a`, then those of `b` on the result; a
@@ -310,41 +446,59 @@ theorem annotate_keeps_sequence (O : Annotate.Oracles) (o : AnnotOpts) (r r' : R
   intro e he
   unfold requestedEdits at he
   simp only [List.mem_append] at he
-  rcases he with ((((((he | he) | he) | he) | he) | he) | he) | he <;>
+  rcases he with ((((((((((((he | he) | he) | he) | he) | he) | he) | he) | he) | he) | he) | he) | he) | he <;>
     obtain ⟨hc, rfl⟩ := mem_ite_singleton he
   · exact clearAll_keeps_seq
   · exact editId_keeps _ O _ (fun _ _ => rfl)
   · exact deleteAttributes_keeps_seq _
   · exact keepAttributes_keeps_seq _
   · exact renameAttributes_keeps_seq _
+  · exact addTaxonAtRank_keeps _ O _ (fun _ _ k _ v => setAttribute_keeps_seq k v)
+  · exact setFromTaxonomy_keeps _ _ _ (fun v => setAttribute_keeps_seq _ v)
+  · exact setFromTaxonomy_keeps _ _ _ (fun v => setAttribute_keeps_seq _ v)
+  · exact setFromTaxonomy_keeps _ _ _ (fun v => setAttribute_keeps_seq _ v)
   · exact addSeqLength_keeps_seq
   · exact evalAttributes_keeps_seq O _
+  · exact dynAttrs_keeps _ _ _ (ahoCorasickAttrs_keys O) (fun k _ v => setAttribute_keeps_seq k v)
   · rcases hcut with h0 | h0
     · exact absurd h0 hc.1
     · exact absurd h0 hc.2
+  · exact dynAttrs_keeps _ _ _ (matchPatternAttrs_keys O _ _ _ _) (fun k _ v => setAttribute_keeps_seq k v)
 
 /-- **the identifier is changed only by `--set-identifier`, by `--cut` (which appends the cut
-coordinates) and by a `--rename-tag id=…` / `--set-tag id=…`** -/
+coordinates) and by a `--rename-tag id=…` / `--set-tag id=…`** (`hlib`: no library-driven worker is asked to write an
+attribute called `id` — their attribute names all carry a suffix, `libraryKeys`) -/
 theorem annotate_keeps_identifier (O : Annotate.Oracles) (o : AnnotOpts) (r r' : Rec)
     (hid : o.setId = "") (hcut : o.cut.1 = 0 ∨ o.cut.2 = 0)
     (hren : ∀ p ∈ o.toBeRenamed, p.1 ≠ "id") (htag : ∀ p ∈ o.evalAttribute, p.1 ≠ "id")
+    (hlib : "id" ∉ libraryKeys o)
     (h : annotate O o r = .ok r') : r'.id = r.id := by
+  have hk : ∀ k ∈ libraryKeys o, ∀ v, Keeps (·.id) (setAttribute k v) :=
+    fun k hk v => setAttribute_keeps_id k v (fun e => hlib (e ▸ hk))
   refine applyAll_keeps (·.id) (requestedEdits O o) ?_ r r' h
   intro e he
   unfold requestedEdits at he
   simp only [List.mem_append] at he
-  rcases he with ((((((he | he) | he) | he) | he) | he) | he) | he <;>
+  rcases he with ((((((((((((he | he) | he) | he) | he) | he) | he) | he) | he) | he) | he) | he) | he) | he <;>
     obtain ⟨hc, rfl⟩ := mem_ite_singleton he
   · exact clearAll_keeps_id
   · exact absurd hid hc
   · exact deleteAttributes_keeps_id _
   · exact keepAttributes_keeps_id _
   · exact renameAttributes_keeps_id _ hren
+  · exact addTaxonAtRank_keeps _ O _ (fun rank hr k hkk v => hk k (mem_libraryKeys_rank o rank hr k hkk) v)
+  · exact setFromTaxonomy_keeps _ _ _ (fun v => hk _ (by simp [libraryKeys, hc]) v)
+  · exact setFromTaxonomy_keeps _ _ _ (fun v => hk _ (by simp [libraryKeys, hc]) v)
+  · exact setFromTaxonomy_keeps _ _ _ (fun v => hk _ (by simp [libraryKeys, hc]) v)
   · exact addSeqLength_keeps_id
   · exact evalAttributes_keeps_id O _ htag
+  · exact dynAttrs_keeps _ _ _ (ahoCorasickAttrs_keys O) (fun k hkk v => hk k (by
+      simp only [libraryKeys, hc, if_true, List.mem_append]; exact Or.inl (Or.inr hkk)) v)
   · rcases hcut with h0 | h0
     · exact absurd h0 hc.1
     · exact absurd h0 hc.2
+  · exact dynAttrs_keeps _ _ _ (matchPatternAttrs_keys O _ _ _ _) (fun k hkk v => hk k (by
+      simp only [libraryKeys, hc, ne_eq, not_false_eq_true, if_true, List.mem_append]; exact Or.inr hkk) v)
 
 /-- **an attribute that no option names is unchanged** (present with the same value, or absent):
 no `--clear`, not deleted, kept if `--keep` is used, neither side of a renaming, not `seq_length`
@@ -355,12 +509,15 @@ theorem annotate_keeps_attribute (O : Annotate.Oracles) (o : AnnotOpts) (r r' : 
     (hren : ∀ p ∈ o.toBeRenamed, k ≠ p.1 ∧ k ≠ p.2)
     (hlen : o.setSeqLength = false ∨ k ≠ "seq_length")
     (htag : ∀ p ∈ o.evalAttribute, k ≠ p.1)
+    (hlib : k ∉ libraryKeys o)
     (h : annotate O o r = .ok r') : r'.attrs.lookup k = r.attrs.lookup k := by
+  have hk : ∀ k' ∈ libraryKeys o, ∀ v, Keeps (fun r => r.attrs.lookup k) (setAttribute k' v) :=
+    fun k' hk' v => setAttribute_keeps_attr k' v k (fun e => hlib (e ▸ hk'))
   refine applyAll_keeps (fun r => r.attrs.lookup k) (requestedEdits O o) ?_ r r' h
   intro e he
   unfold requestedEdits at he
   simp only [List.mem_append] at he
-  rcases he with ((((((he | he) | he) | he) | he) | he) | he) | he <;>
+  rcases he with ((((((((((((he | he) | he) | he) | he) | he) | he) | he) | he) | he) | he) | he) | he) | he <;>
     obtain ⟨hc, rfl⟩ := mem_ite_singleton he
   · simp [hclear] at hc
   · exact editId_keeps _ O _ (fun _ _ => rfl)
@@ -374,6 +531,10 @@ theorem annotate_keeps_attribute (O : Annotate.Oracles) (o : AnnotOpts) (r r' : 
     · exact absurd h0 hc
     · simp [h0]
   · exact renameAttributes_keeps_attr _ k hren
+  · exact addTaxonAtRank_keeps _ O _ (fun rank hr k' hkk v => hk k' (mem_libraryKeys_rank o rank hr k' hkk) v)
+  · exact setFromTaxonomy_keeps _ _ _ (fun v => hk _ (by simp [libraryKeys, hc]) v)
+  · exact setFromTaxonomy_keeps _ _ _ (fun v => hk _ (by simp [libraryKeys, hc]) v)
+  · exact setFromTaxonomy_keeps _ _ _ (fun v => hk _ (by simp [libraryKeys, hc]) v)
   · intro x x' hx
     show x'.attrs.lookup k = x.attrs.lookup k
     rw [addSeqLength_lookup x x' hx k]
@@ -381,10 +542,14 @@ theorem annotate_keeps_attribute (O : Annotate.Oracles) (o : AnnotOpts) (r r' : 
     · simp [h0] at hc
     · simp [h0]
   · exact evalAttributes_keeps_attr O _ k htag
+  · exact dynAttrs_keeps _ _ _ (ahoCorasickAttrs_keys O) (fun k' hkk v => hk k' (by
+      simp only [libraryKeys, hc, if_true, List.mem_append]; exact Or.inl (Or.inr hkk)) v)
   · intro x x' hx
     show x'.attrs.lookup k = x.attrs.lookup k
     have e : x'.attrs = x.attrs := cutSequence_keeps_attrs _ _ x x' hx
     rw [e]
+  · exact dynAttrs_keeps _ _ _ (matchPatternAttrs_keys O _ _ _ _) (fun k' hkk v => hk k' (by
+      simp only [libraryKeys, hc, ne_eq, not_false_eq_true, if_true, List.mem_append]; exact Or.inr hkk) v)
 
 /-! ### what each edit does (one worker) -/
 
@@ -467,7 +632,7 @@ example : cutSequence 2 5 ⟨"r", [97, 99, 103, 116, 97, 99, 103, 116, 97, 99], 
   refine ⟨by decide, by decide, by decide, by decide⟩
 
 /-- non-vacuity of the frame theorems: `--delete-tag a --length -S t='…'` on a record with `a`, `b` -/
-def exA : Annotate.Oracles := ⟨fun _ r => some (.str r.id)⟩
+def exA : Annotate.Oracles := { evalExpr := fun _ r => some (.str r.id) }
 def exAOpts : AnnotOpts := { toBeDeleted := ["a"], setSeqLength := true, evalAttribute := [("t", "sequence.Id()")] }
 def exRec : Rec := ⟨"r1", [97, 99], [("a", .int 1), ("b", .str "x")]⟩
 
@@ -478,9 +643,9 @@ example : ∃ r', annotate exA exAOpts exRec = .ok r' ∧ r'.seq = exRec.seq ∧
     r'.attrs.lookup "b" = exRec.attrs.lookup "b" := by
   refine ⟨_, rfl, ?_, ?_, ?_⟩
   · exact annotate_keeps_sequence exA exAOpts exRec _ (by decide) rfl
-  · exact annotate_keeps_identifier exA exAOpts exRec _ (by decide) (by decide) (by decide) (by decide) rfl
+  · exact annotate_keeps_identifier exA exAOpts exRec _ (by decide) (by decide) (by decide) (by decide) (by decide) rfl
   · exact annotate_keeps_attribute exA exAOpts exRec _ "b" (by decide) (by decide) (by decide) (by decide)
-      (by decide) (by decide) rfl
+      (by decide) (by decide) (by decide) rfl
 
 /-! ## 6. `CLIAnnotationPipeline`: selection, then the edits -/
 
@@ -493,7 +658,8 @@ theorem pipeline_exact (G : Grep.Oracles) (g : GrepOpts) (O : Annotate.Oracles) 
         (match annotate O o r with
          | .ok r' => .out r'
          | .dropped => .absent
-         | .panic => .panic)
+         | .panic => .panic
+         | .fatal => .fatal)
       else .absent := by
   have h := grep_exact G g r hE
   unfold pipeline
